@@ -41,6 +41,11 @@ func DIDKeys() []DIDKey {
 	var out []DIDKey
 	for i := 0; i < 6; i++ {
 		p := secp256k1.GenPrivKeySecp256k1([]byte(fmt.Sprintf("verif-did-key-%d", i)))
+		if i < 2 {
+			// the DID keys 0 and 1 ARE the keys of the chain accounts a0 and a1 (a wallet that
+			// uses one key for both): the account that relays a message may be "the key's account"
+			p = secp256k1.PrivKey(simnet.NewAccount(fmt.Sprintf("a%d", i)).Priv.Bytes())
+		}
 		out = append(out, DIDKey{Name: fmt.Sprintf("k%d", i), Secp: p, Pub: p.PubKey().Bytes()})
 	}
 	for i := 0; i < 2; i++ {
